@@ -9,6 +9,10 @@
 (* kind "tamper":  [obs, significant]                                      *)
 (* kind "cli":     [signer_in_keyfile, flag_s, flag_P, signed_manifest,    *)
 (*                  status, user_home_same]                                *)
+(* kind "cliopv":  [signer_in_keyfile, files: Seq(good|unsigned|tampered), *)
+(*                  status, user_home_same]     (growth: openpgp-verify)   *)
+(* kind "cliwrap": [keys_seen_ok, child_rc, status, user_home_same]        *)
+(*                                              (growth: gpg-wrap)         *)
 (***************************************************************************)
 EXTENDS GpgRef, TLC, Json, IOUtils
 
@@ -54,6 +58,18 @@ Clauses(r) ==
                      ELSE ~r.flag_s
         IN (IF (r.status = 0) # want0 THEN {IF r.status = 0 THEN "C05.CliFalseAccept" ELSE "C05.CliFalseReject"} ELSE {})
            \cup (IF ~r.user_home_same THEN {"C05.UserKeyringTouched"} ELSE {})
+    ELSE IF r.kind = "cliopv" THEN
+        \* growth: `gemato openpgp-verify f1 [f2]` exits 0 iff every file carries a good signature by a key
+        \* of the key file; the user's keyring is not touched
+        LET allgood == r.signer_in_keyfile /\ \A k \in DOMAIN r.files : r.files[k] = "good" IN
+        (IF (r.status = 0) # allgood THEN {IF r.status = 0 THEN "C05.CliFalseAccept" ELSE "X04.OpenpgpVerifyFalseReject"} ELSE {})
+        \cup (IF r.status \notin {0, 1} THEN {"X04.OpenpgpVerifyStatus"} ELSE {})
+        \cup (IF ~r.user_home_same THEN {"C05.UserKeyringTouched"} ELSE {})
+    ELSE IF r.kind = "cliwrap" THEN
+        \* growth: `gemato gpg-wrap`: the child runs with exactly the keys of the key file, its status is passed on
+        (IF ~r.keys_seen_ok THEN {"X05.WrapKeys"} ELSE {})
+        \cup (IF r.status # r.child_rc THEN {"X05.WrapStatus"} ELSE {})
+        \cup (IF ~r.user_home_same THEN {"C05.UserKeyringTouched"} ELSE {})
     ELSE {"C05.UnknownRecord"}
 
 Drift(r) == IF r.kind = "verify" /\ r.real /\ ~EmitsOK(r) THEN {"gpg-emits-differently"} ELSE {}
